@@ -221,6 +221,7 @@ func runRga(cfg *config) error {
 	res.Nontrivial = len(seen)
 	res.Rule = "random call sequences (InsertAfter with position or element anchors, MoveAfter, DeleteByCreatedAt, Set, purge of removed elements and dead positions; tickets from 4 actors with partly out-of-order lamports; some unknown ids) on the real crdt.Array; non-trivial = contains a move or a purge; distinct = distinct rendered case"
 	const shard = 250
+	res.CaseShard = shard
 	for k := 0; k*shard < len(cases); k++ {
 		hi := (k + 1) * shard
 		if hi > len(cases) {
